@@ -117,13 +117,20 @@ func c09Ops() []c09Op {
 	}
 }
 
-func c09Fresh() *MultiEpoch {
+func c09Fresh() *MultiEpoch { return c09FreshFrom("") }
+
+// c09FreshFrom: start "" = epochs 1 and 3 loaded; "empty" = no epoch loaded yet (a server that has just started, or
+// whose last epoch was removed)
+func c09FreshFrom(start string) *MultiEpoch {
 	conc := 1 // the parallel search itself is C18's subject; here its jobs only matter as lock users
 	if vkit.Thorough() {
 		conc = 2
 	}
 	// set up through the public API only (an implementation may keep derived state next to the map)
 	m := NewMultiEpoch(&Options{EpochSearchConcurrency: conc})
+	if start == "empty" {
+		return m
+	}
 	if err := m.AddEpoch(1, c09LightEpoch(1, "")); err != nil {
 		panic(err)
 	}
@@ -173,8 +180,9 @@ func c09FinalProblem(final string) string {
 }
 
 type c09Scenario struct {
-	Ops  []int  `json:"ops"` // indices into c09Ops, one per thread
-	Name string `json:"name"`
+	Ops   []int  `json:"ops"` // indices into c09Ops, one per thread
+	Name  string `json:"name"`
+	Start string `json:"start,omitempty"` // "" = two epochs loaded, "empty" = none
 }
 
 func c09StrictlyDescending(obs string) bool {
@@ -193,6 +201,56 @@ func c09StrictlyDescending(obs string) bool {
 }
 
 // sequential reference: the real object, run sequentially, for every order of the operations.
+// sequentialStuck runs the operations one after the other (every order) under the scheduler, where an operation that
+// blocks for ever is seen as a deadlock instead of hanging the harness. Returns a description of the first order
+// that does not complete.
+func (sc c09Scenario) sequentialStuck(ops []c09Op) string {
+	idx := make([]int, len(sc.Ops))
+	for i := range idx {
+		idx[i] = i
+	}
+	problem := ""
+	var perm func(k int)
+	perm = func(k int) {
+		if problem != "" {
+			return
+		}
+		if k == len(idx) {
+			order := append([]int{}, idx...)
+			at := ""
+			_, _, err := explore.Replay(nil, func(c *explore.Ctx) explore.Result {
+				s := vsched.Run(c, vsched.Options{Horizon: 4000, Drain: true, Canonical: true}, func() {
+					m := c09FreshFrom(sc.Start)
+					for _, t := range order {
+						at = ops[sc.Ops[t]].Name
+						ops[sc.Ops[t]].Do(m)
+					}
+					at = ""
+				})
+				if s.Deadlock || s.HorizonHit {
+					var names []string
+					for _, t := range order {
+						names = append(names, ops[sc.Ops[t]].Name)
+					}
+					problem = fmt.Sprintf("run one after the other in the order %v, %s never completes (%s)", names, at, s.DeadlockInfo)
+				}
+				return explore.Result{}
+			})
+			if err != nil && problem == "" {
+				problem = "internal: " + err.Error()
+			}
+			return
+		}
+		for i := k; i < len(idx); i++ {
+			idx[k], idx[i] = idx[i], idx[k]
+			perm(k + 1)
+			idx[k], idx[i] = idx[i], idx[k]
+		}
+	}
+	perm(0)
+	return problem
+}
+
 func (sc c09Scenario) sequentialOutcomes(ops []c09Op) map[string]bool {
 	out := map[string]bool{}
 	idx := make([]int, len(sc.Ops))
@@ -202,7 +260,7 @@ func (sc c09Scenario) sequentialOutcomes(ops []c09Op) map[string]bool {
 	var perm func(k int)
 	perm = func(k int) {
 		if k == len(idx) {
-			m := c09Fresh()
+			m := c09FreshFrom(sc.Start)
 			obs := make([]string, len(sc.Ops))
 			for _, t := range idx {
 				obs[t] = ops[sc.Ops[t]].Do(m)
@@ -224,7 +282,7 @@ func (sc c09Scenario) run(c *explore.Ctx, ops []c09Op, seq map[string]bool) expl
 	obs := make([]string, len(sc.Ops))
 	var m *MultiEpoch
 	s := vsched.Run(c, vsched.Options{Horizon: 4000, Drain: true, Canonical: true}, func() {
-		m = c09Fresh()
+		m = c09FreshFrom(sc.Start)
 		done := make(chan int, len(sc.Ops))
 		for t := range sc.Ops {
 			t := t
@@ -413,6 +471,14 @@ func c09Scenarios(ops []c09Op) []c09Scenario {
 			add(w1, w2)
 		}
 	}
+	// the same pairs on a server without any epoch (the readers take their "nothing loaded" paths)
+	for _, r := range readers {
+		for _, w := range writers {
+			add(r, w)
+			out[len(out)-1].Start = "empty"
+			out[len(out)-1].Name += " (no epoch loaded)"
+		}
+	}
 	// triples: reader, reader, writer  and  reader, writer, writer.
 	// findEpochNumberFromSignature spawns the parallel-search goroutines (3 more threads), which makes
 	// its triples ~100x larger: quick keeps it to the pair scenarios above.
@@ -444,13 +510,17 @@ func TestVerif_C09(t *testing.T) {
 	silenceKlog()
 	R := vkit.New("C09")
 	defer R.Finish()
-	R.Rule = "scenario = 2..3 threads x one operation each from {12 query-side, 7 reload-side operations} on a MultiEpoch holding epochs {1,3}; every interleaving of the lock operations is executed on the real methods (multiepoch.go compiled against the RWMutex model, happens-before state pruning); oracle = no deadlock, listings strictly descending, observations+final set equal to some sequential order run on the real object; non-trivial = execution in which threads actually interleave (more context switches than threads)"
+	R.Rule = "scenario = 2..3 threads x one operation each from {12 query-side, 7 reload-side operations} on a MultiEpoch holding epochs {1,3}, and every query/reload pair on one holding no epoch; every interleaving of the lock operations is executed on the real methods (multiepoch.go compiled against the RWMutex model, happens-before state pruning); oracle = no deadlock, listings strictly descending, observations+final set equal to some sequential order run on the real object; non-trivial = execution in which threads actually interleave (more context switches than threads)"
 	R.Assume("sync.RWMutex is modelled with Go's documented writer preference (validated against the real primitive by kit/vsched/conform_test.go)")
 	R.Assume("code between two lock operations runs atomically (no other synchronisation exists in the instrumented file)")
 	ops := c09Ops()
 	if rp := vkit.ReplayRequest(); rp != nil {
 		var sc c09Scenario
 		remarshal(rp["scenario"], &sc)
+		if p := sc.sequentialStuck(ops); p != "" {
+			R.Violation("C09|deadlock|sequential|"+sc.Name, fmt.Sprintf("[%s] %s", sc.Name, p), rp)
+			return
+		}
 		seq := sc.sequentialOutcomes(ops)
 		res, _, err := explore.Replay(vkit.Ints(rp["choices"]), func(c *explore.Ctx) explore.Result { return sc.run(c, ops, seq) })
 		t.Logf("replay scenario=%s outcome=%s violation=%+v err=%v", sc.Name, res.Outcome, res.Violation, err)
@@ -485,6 +555,15 @@ func TestVerif_C09(t *testing.T) {
 			break
 		}
 		sc := sc
+		if p := sc.sequentialStuck(ops); p != "" {
+			if strings.HasPrefix(p, "internal: ") {
+				R.Internal("scenario %s: %s", sc.Name, p)
+				break
+			}
+			R.Violation("C09|deadlock|sequential|"+sc.Name, fmt.Sprintf("[%s] %s", sc.Name, p), map[string]interface{}{"scenario": sc, "choices": []int{}})
+			R.Add("scenarios", 1)
+			continue
+		}
 		seq := sc.sequentialOutcomes(ops)
 		runf := func(c *explore.Ctx) explore.Result { return sc.run(c, ops, seq) }
 		st := explore.Search(explore.Config{Bound: -1, Deadline: R.Deadline(), Prune: true}, runf)
